@@ -1,9 +1,10 @@
 import Driver.Util
 import Model.Validate
 import Model.ValidateSpec
+import Model.ValidateHist
 /-! JSON ops for C19: model verdict and specification verdict (oracle) of constructor calls. -/
 namespace Driver
-open Lean Model.Validate Model.ValidateSpec
+open Lean Model.Validate Model.ValidateSpec Model.ValidateHist
 
 namespace ValidateJson
 
@@ -185,6 +186,53 @@ def opC19Figure (j : Json) : R Json := do
   let a ← asFigArgs j
   return answer (constructFigure a) (specFigure a)
 
+/-! ### histories: constructor calls with file-system events in between (`Model.ValidateHist`) -/
+
+def c19AsPathRef (j : Json) : R PathRef := do
+  match optFld j "abs" with
+  | some d => return .abs (← asNat d) (← strF j "n")
+  | none => return .rel (← strF j "rel")
+
+def c19AsFigCall (j : Json) : R FigCall := do
+  let a ← asFigArgs j
+  let ps ← match optFld j "paths" with | some v => some <$> asList c19AsPathRef v | none => pure none
+  return { figAlign := a.figAlign, figPos := a.figPos, figWidth := a.figWidth, figHeight := a.figHeight, paths := ps }
+
+def c19AsEv (j : Json) : R Ev := do
+  match ← strF j "ev" with
+  | "create" => return .create (← natF j "d") (← strF j "n")
+  | "delete" => return .delete (← natF j "d") (← strF j "n")
+  | "rename" => return .rename (← natF j "d") (← strF j "n") (← natF j "d2") (← strF j "n2")
+  | "chdir" => return .chdir (← natF j "d")
+  | "call" => return .call (← c19AsFigCall j)
+  | e => throw s!"hist: unknown event {e}"
+
+def c19StName : PathSt → String
+  | .missing => "missing"
+  | .image => "image"
+  | .other => "other"
+
+/-- op `c19_hist`: a history of file-system events and `RTFFigure(...)` calls from an initial state; for every
+call, in order: the model's outcome, the specification verdict and the status of every path, each in the state
+reached by the events before that call -/
+def opC19Hist (j : Json) : R Json := do
+  let files ← listF (fun f => do
+      match ← asArr f with
+      | [d, n] => return ((← asNat d), (← asStr n))
+      | _ => throw "hist: files expects [dir, name]") j "files"
+  let fs : Fs := { cwd := (← natF j "cwd"), files := files }
+  let evs ← listF c19AsEv j "steps"
+  let ms := run fs evs
+  let ss := runSpec fs evs
+  let sts := runStatus fs evs
+  let calls := (ms.zip (ss.zip sts)).map fun (m, s, st) =>
+    Json.mkObj [("model", Json.str (resName m)), ("spec", Json.str (verdictName s)), ("status", jStrs (st.map c19StName))]
+  let fin := evs.foldl step fs
+  return Json.mkObj [("calls", Json.arr calls.toArray),
+                     ("final", Json.mkObj [("cwd", Json.num (JsonNumber.fromNat fin.cwd)),
+                       ("files", jList (fun (f : Nat × String) =>
+                          Json.arr #[Json.num (JsonNumber.fromNat f.1), Json.str f.2]) fin.files)])]
+
 /-- the specification verdict of a whole call sequence: the first component verdict that is not `accept`
 decides, otherwise the document's own -/
 def seqVerdict : List Verdict → Verdict → Verdict
@@ -231,7 +279,7 @@ def opC19Tables (_ : Json) : R Json :=
 
 namespace Validate
 def ops : List (String × (Json → R Json)) :=
-  [("c19_comp", opC19Comp), ("c19_page", opC19Page), ("c19_figure", opC19Figure), ("c19_doc", opC19Doc),
+  [("c19_comp", opC19Comp), ("c19_page", opC19Page), ("c19_figure", opC19Figure), ("c19_hist", opC19Hist), ("c19_doc", opC19Doc),
    ("c19_to_nested", opC19ToNested), ("c19_tables", opC19Tables)]
 end Validate
 
